@@ -19,7 +19,11 @@ RULE = ("per case 1-4 hotspot rules (mostly MetricType=Concurrency; general thre
         "attachments, WithBatchCount from {0,1,2,5,2^31,2^32-1} on 30% of the entries (<= 5 next to QPS rules), exits of any earlier entry in any order (nested and interleaved across values and resources); in a third of the "
         "cases some Entry calls are made by other goroutines that are held at the yield point between the rule-check loop and the "
         "statistic loop and resumed later in any order (schedules: check/commit interleavings, up to 4 parked at once); reads of a live "
-        "entry's Input.Args, a flow rule with threshold 0 on a resource (entries blocked by another slot), occasionally a reload; "
+        "entry's Input.Args, a flow rule with threshold 0 on a resource (entries blocked by another slot); in half of the cases some entries end with a business "
+        "error (api.TraceError before the exit, or Exit(WithError)); concurrency rules with ControlBehavior Reject or Throttling; in half of the "
+        "cases `reload`s on top of the rules in force with entries alive across them (identical list, thresholds / items changed, argument "
+        "position changed, behaviour / capacity changed, reordered, a twin rule added so that two new rules could reuse one old rule, a rule "
+        "dropped), occasionally a clean `load`; "
         "non-trivial = some entry was blocked by the hotspot rule, some entry passed after an exit, and at least two entries with "
         "different values were alive at once; distinct by (rules, op-kind/result sequence)")
 
@@ -30,7 +34,7 @@ BIG_BATCH = [2147483648, 4294967295]
 
 
 def gen_rule(rng, res, pool, wide=False, qps=False):
-    kind = "c"
+    kind = "c" if rng.random() < 0.8 else "ct"      # ControlBehavior of a concurrency rule: Reject / Throttling
     if qps and rng.random() < 0.45:
         kind = rng.choice(["q", "t", "t"])
     elif rng.random() < 0.03:
@@ -45,10 +49,58 @@ def gen_rule(rng, res, pool, wide=False, qps=False):
     thr = rng.choice([0, 1, 1, 1, 2, 2, 3]) if rng.random() < 0.95 else rng.choice([-1, 1000000])
     pmc = rng.choice([0, 0, 0, 0, 0, 0, 8, 3, 2, 1]) if rng.random() < 0.9 else rng.choice([-1, 4000, 5])
     items = []
-    if kind == "c":
+    if kind in ("c", "ct"):
         for v in rng.sample(pool, rng.choice([0, 0, 1, 1, 2])):
             items.append(f"{v}={rng.choice([0, 1, 1, 2, 2, 5, -1])}")
     return f"{res};{kind};{idx};{key};{thr};{pmc};{','.join(items)}"
+
+
+def mutate_rules(rng, cur, pool):
+    """a rule list for `reload`, derived from the rules in force: identical, thresholds / items changed (cells inherited),
+    argument position changed, behaviour / capacity changed (fresh cells), reordered, a rule added next to its twin
+    (two new rules that could both reuse one old rule), a rule dropped"""
+    rs = [r.split(";") for r in cur]
+    for _ in range(rng.choice([0, 1, 1, 1, 2, 3])):
+        if not rs:
+            break
+        i = rng.randrange(len(rs))
+        r = list(rs[i])
+        m = rng.random()
+        if m < 0.25:
+            r[4] = str(rng.choice([0, 1, 1, 2, 2, 3, 5]))
+        elif m < 0.35:
+            r[6] = ",".join(f"{v}={rng.choice([0, 1, 2, 5])}" for v in rng.sample(pool, rng.choice([0, 1, 2])))
+        elif m < 0.45:
+            r[2] = str(rng.choice([0, 1, -1, 2]))
+            if r[3] and int(r[2]) > 0:
+                r[3] = ""
+        elif m < 0.52:
+            r[1] = {"c": "ct", "ct": "c", "q": "t", "t": "q"}[r[1]]
+        elif m < 0.58:
+            r[5] = str(rng.choice([0, 1, 2, 3, 8]))
+        elif m < 0.80:
+            # the twin: same rule looking at another position (or with another threshold), placed before or after
+            t = list(r)
+            if rng.random() < 0.7:
+                t[2] = str(rng.choice([0, 1, -1]))
+                if t[3] and int(t[2]) > 0:
+                    t[3] = ""
+            else:
+                t[4] = str(rng.choice([1, 2, 3]))
+            if rng.random() < 0.5:
+                r[4] = str(rng.choice([1, 2, 3]))      # so that neither is equal to the old rule
+            rs.insert(i + rng.choice([0, 1]), t)
+            if len(rs) > 6:
+                rs.pop(rng.randrange(len(rs)))
+        elif m < 0.88:
+            rs.pop(i)
+            continue
+        else:
+            rng.shuffle(rs)
+            continue
+        if i < len(rs) and rs[i][0] == r[0]:
+            rs[i] = r
+    return [";".join(r) for r in rs]
 
 
 def gen_entry(rng, eid, res, pool, wide=False, batches=None, template=None):
@@ -93,10 +145,13 @@ def gen_case(rng, cid, big=False):
         if any(";q;" in x or ";t;" in x for x in rs):
             has_qps[0] = True
         return rs
-    ops = ["load " + " ".join(rules())]
+    cur = rules()
+    ops = ["load " + " ".join(cur)]
     ids, k = [], 0
     parked = []
     fb = set()
+    p_reload = rng.choice([0, 0, 0, 0.02, 0.04, 0.08])     # reloads on top of the rules in force, entries alive across them
+    p_err = rng.choice([0, 0, 0.15, 0.4])                  # entries that end with a business error
     templates = []
     p_race = rng.choice([0, 0, 0, 0.08, 0.2, 0.35])
     nops = rng.randint(15, 90) if not big else rng.randint(100, 300)
@@ -115,9 +170,22 @@ def gen_case(rng, cid, big=False):
             eid = parked.pop(rng.randrange(len(parked)))
             ops.append(f"resume {eid}")
             ids.append(eid)
+        elif rng.random() < p_reload:
+            cur = mutate_rules(rng, cur, pool)
+            if any(";q;" in x or ";t;" in x for x in cur):
+                has_qps[0] = True
+            ops.append(("reload " + " ".join(cur)).rstrip())
         elif r < p_exit and ids:
             i = rng.randrange(len(ids)) if rng.random() < 0.7 else (len(ids) - 1 if rng.random() < 0.5 else 0)
-            ops.append(f"exit {ids.pop(i)}")
+            eid = ids.pop(i)
+            if rng.random() < p_err:
+                if rng.random() < 0.5:
+                    ops.append(f"trace {eid}")
+                    ops.append(f"exit {eid}")
+                else:
+                    ops.append(f"exit {eid} err")
+            else:
+                ops.append(f"exit {eid}")
         elif r < p_exit + 0.08 and ids:
             ops.append(f"args {rng.choice(ids)}")
         elif r < p_exit + 0.09 and rng.random() < 0.25:
@@ -125,7 +193,8 @@ def gen_case(rng, cid, big=False):
             fb.add(res)
             ops.append(f"flowblock {res}")
         elif r < p_exit + 0.10 and rng.random() < 0.15:
-            ops.append("load " + " ".join(rules()))
+            cur = rules()
+            ops.append("load " + " ".join(cur))
         else:
             k += 1
             eid = f"e{k}"
@@ -153,7 +222,7 @@ def gen_case(rng, cid, big=False):
     if rng.random() < 0.7:
         rng.shuffle(ids)
         for eid in ids:
-            ops.append(f"exit {eid}")
+            ops.append(f"exit {eid} err" if rng.random() < p_err else f"exit {eid}")
         for v in rng.sample(pool, min(len(pool), 3)):
             k += 1
             ops.append(f"entry e{k} {rng.choice(ress)} {v}")
@@ -271,6 +340,8 @@ META = {
                    "and check/commit interleavings at the one yield point that matters for the cells (cache operations are under a lock, counter updates "
                    "are single atomic adds). Values: int, int64, string, bool, nil (no float/NaN, "
                    "no unhashable values); QPS rules (Reject 1e9/s, Throttling 1/s queueing with MaxQueueingTimeMs 1e9) stand before/after the concurrency rules and "
-                   "are inert in the model, valid for batch counts <= 5 (C05 is about them); the batch count is not a model parameter."),
+                   "are inert in the model, valid for batch counts <= 5 (C05 is about them); the batch count, business errors on exit and the "
+                   "ControlBehavior of a concurrency rule are not read by any modelled step; reloads on top of rules in force follow the code's reuse "
+                   "algorithm in the executable model (reload_fresh, reload_same proved; the theorems of the property quantify over one rule set)."),
     "design_ref": "DESIGN.md 6.C06",
 }
